@@ -20,7 +20,7 @@ from .vals import EngineError
 from .extract import StaleContract
 from .models import pylists, pyannote_  # noqa: F401  (registers the models)
 from . import heap  # noqa: F401  (tier B layer)
-from .models import numpy_cvx, genexp, csvio, rng, pysets  # noqa: F401,E402
+from .models import numpy_cvx, genexp, csvio, rng, pysets, occmap  # noqa: F401,E402
 
 ROOT = os.path.dirname(os.path.dirname(os.path.abspath(__file__)))
 CONTRACT_MODULES = ["numba_utils", "dissimilarity", "continuum", "alignment", "sampler", "cst"]
